@@ -60,8 +60,9 @@ Definition LF : locator := locate_fast.
 
 (* scattering factors at energy x on table t against (f1, f2): exact at a node *)
 Definition chk_sf (t : xtable) (x : Q) (f1 f2 : pyval) : bool :=
-  let '((m1, m2), (s1, s2)) := sfs LF t x in
-  let ex := at_node LF t x in
+  let l := LF t x in
+  let '((m1, m2), (s1, s2)) := sfs_loc l x in
+  let ex := match l with LNode _ => true | _ => false end in
   (chk_val ex s1 f1 m1 && chk_val ex s2 f2 m2)%bool.
 
 (* ------------------------------------------------------------------ cases *)
